@@ -50,22 +50,30 @@ func nibbles(k []byte) []byte {
 }
 
 type entry struct {
-	nk []byte
-	v  []byte
+	nk     []byte
+	v      []byte
+	hashed bool // value stored by hash (state version 1 semantics at the time the value was written)
 }
 
 // TrieRoot computes the Polkadot state root of the map m (keys are raw byte strings held
 // as Go strings) under state version 0 or 1, straight from the specification.
 func TrieRoot(m map[string][]byte, version int) []byte {
+	return TrieRootMixed(m, func(k string, v []byte) bool { return version == 1 && len(v) > 32 })
+}
+
+// TrieRootMixed computes the root of a trie whose values were written under different state
+// versions: hashed(k, v) says whether the value of key k is stored by hash.  (A state raised from
+// V0 to V1 keeps inline values until they are written again.)
+func TrieRootMixed(m map[string][]byte, hashed func(k string, v []byte) bool) []byte {
 	es := make([]entry, 0, len(m))
 	for k, v := range m {
-		es = append(es, entry{nibbles([]byte(k)), v})
+		es = append(es, entry{nibbles([]byte(k)), v, hashed(k, v)})
 	}
 	sort.Slice(es, func(i, j int) bool { return bytes.Compare(es[i].nk, es[j].nk) < 0 })
 	if len(es) == 0 {
 		return Blake256([]byte{0})
 	}
-	return Blake256(encodeNode(es, 0, version))
+	return Blake256(encodeNode(es, 0))
 }
 
 // TrieRootKV is TrieRoot over a list in which later duplicates win.
@@ -105,10 +113,10 @@ func packNibbles(n []byte) []byte {
 }
 
 // encodeNode encodes the subtrie holding es (sorted, all sharing the first `depth` nibbles).
-func encodeNode(es []entry, depth int, version int) []byte {
+func encodeNode(es []entry, depth int) []byte {
 	if len(es) == 1 {
 		pk := es[0].nk[depth:]
-		hashed := version == 1 && len(es[0].v) > 32
+		hashed := es[0].hashed
 		var out []byte
 		if hashed {
 			out = header(0b0010_0000, 3, len(pk))
@@ -134,11 +142,11 @@ func encodeNode(es []entry, depth int, version int) []byte {
 	var value []byte
 	hasValue := false
 	rest := es
+	hashed := false
 	if len(es[0].nk) == cp {
-		hasValue, value = true, es[0].v
+		hasValue, value, hashed = true, es[0].v, es[0].hashed
 		rest = es[1:]
 	}
-	hashed := hasValue && version == 1 && len(value) > 32
 	var out []byte
 	switch {
 	case !hasValue:
@@ -169,7 +177,7 @@ func encodeNode(es []entry, depth int, version int) []byte {
 		if children[i] == nil {
 			continue
 		}
-		enc := encodeNode(children[i], cp+1, version)
+		enc := encodeNode(children[i], cp+1)
 		mv := enc
 		if len(enc) >= 32 {
 			mv = Blake256(enc)
@@ -185,7 +193,7 @@ func encodeNode(es []entry, depth int, version int) []byte {
 func NodeEncodings(m map[string][]byte, version int) [][]byte {
 	es := make([]entry, 0, len(m))
 	for k, v := range m {
-		es = append(es, entry{nibbles([]byte(k)), v})
+		es = append(es, entry{nibbles([]byte(k)), v, version == 1 && len(v) > 32})
 	}
 	sort.Slice(es, func(i, j int) bool { return bytes.Compare(es[i].nk, es[j].nk) < 0 })
 	if len(es) == 0 {
@@ -194,7 +202,7 @@ func NodeEncodings(m map[string][]byte, version int) [][]byte {
 	var out [][]byte
 	var walk func(es []entry, depth int)
 	walk = func(es []entry, depth int) {
-		out = append(out, encodeNode(es, depth, version))
+		out = append(out, encodeNode(es, depth))
 		if len(es) == 1 {
 			return
 		}
